@@ -553,6 +553,7 @@ R6_TAILS = [
     (r'\.\s*iter\s*\(\s*\)\s*\.\s*any\s*\(', 'vf_any'),
     (r'\.\s*into_iter\s*\(\s*\)\s*\.\s*all\s*\(', 'vf_all_owned'),
     (r'\.\s*into_iter\s*\(\s*\)\s*\.\s*find\s*\(', 'vf_find_owned'),
+    (r'\.\s*iter\s*\(\s*\)\s*\.\s*find\s*\(', 'vf_find'),
     (r'\.\s*iter\s*\(\s*\)\s*\.\s*flat_map\s*\(', 'vf_flat_map', r'\)\s*\.\s*collect\s*::\s*<\s*Vec\s*<\s*_\s*>\s*>\s*\(\s*\)'),
     (r'\.\s*into_iter\s*\(\s*\)\s*\.\s*filter_map\s*\(', 'vf_filter_map_owned', r'\)\s*\.\s*collect\s*(::\s*<\s*Vec\s*<\s*_\s*>\s*>)?\s*\(\s*\)'),
 ]
@@ -608,9 +609,11 @@ def r6_tails(text, notes):
         recv = text[rs:m.start()].strip()
         text = text[:rs] + 'vf_choose(&%s)' % recv + text[m.end():]
         notes.add('R6', '`<vec>.choose(&mut rand::thread_rng())` lowered to vf_choose(<vec>)')
-    mask = mask_text(text)
-    m = re.search(r'\.\s*chunks\s*\(', mask)
-    if m:
+    while True:
+        mask = mask_text(text)
+        m = re.search(r'\.\s*chunks\s*\(', mask)
+        if not m:
+            break
         par = m.end() - 1
         close = match_close(mask, par)
         rs = _receiver_start(mask, m.start())
@@ -618,6 +621,7 @@ def r6_tails(text, notes):
         k = text[par + 1:close].strip()
         text = text[:rs] + 'vf_chunks(%s.as_slice(), %s)' % (recv, k) + text[close + 1:]
         notes.add('R6', '`%s.chunks(..)` lowered to vf_chunks(%s.as_slice(), ..)' % (recv, recv))
+        continue
     # `A.iter().chain(B).collect::<HashSet<_>>()` -> `vf_ref_set2(A, B)`
     mask = mask_text(text)
     m = re.search(r'\.\s*iter\s*\(\s*\)\s*\.\s*chain\s*\(', mask)
@@ -887,6 +891,16 @@ def r6_db_scans(text, notes):
                 c3 = text[mpar + 1:mclose].strip()
                 rep = '{ let scan__m = %s;\n        vf_vec_map(scan__m, %s) }' % (rep, c3)
                 end = mclose + 1 + mcoll.end()
+        # a following `.filter_map(C).collect()` keeps the Some-values
+        mfm = re.match(r'\s*\.\s*filter_map\s*\(', mask[end:]) if not mm else None
+        if mfm:
+            mpar = end + mfm.end() - 1
+            mclose = match_close(mask, mpar)
+            mcoll = re.match(r'\s*\.\s*collect\s*(::\s*<\s*Vec\s*<\s*_\s*>\s*>)?\s*\(\s*\)', mask[mclose + 1:])
+            if mcoll:
+                c3 = text[mpar + 1:mclose].strip()
+                rep = '{ let scan__m = %s;\n        vf_vec_filter_map(scan__m, %s) }' % (rep, c3)
+                end = mclose + 1 + mcoll.end()
         text = text[:rs] + rep + text[end:]
         notes.add('R6', 'RocksDB scan `%s.take_while(..)%s` lowered to %s' % (' '.join(recv.split()), '.filter(..)' if mf else '', 'vf_db_tw_filter' if mf else 'vf_db_tw'))
 
@@ -896,6 +910,41 @@ def _mark_iter(recv):
     i = recv.rfind('.iterator(')
     j = recv.rfind('iterator')
     return recv[:j] + 'db_iterator' + recv[j + len('iterator'):]
+
+
+def r19b_bind_chunk_source(text, notes):
+    """R19b: `for P in vf_chunks(E.as_slice(), K) {` where E is not a plain path: the temporary E is bound to a name before the
+    loop (in Rust it lives for the whole loop anyway; Verus' for-loop encoding binds the iterator first)"""
+    n = 0
+    while True:
+        mask = mask_text(text)
+        hit = None
+        for off in kw_iter(mask, 'for'):
+            mi = re.match(r'for\s+([^{;]+?)\s+in\s+vf_chunks\s*\(', mask[off:], re.S)
+            if not mi:
+                continue
+            par = off + mi.end() - 1
+            close = match_close(mask, par)
+            inner = text[par + 1:close]
+            comma = find_at_depth0(mask, par + 1, close, ',')
+            if comma < 0:
+                continue
+            src = text[par + 1:comma].strip()
+            ms = re.match(r'^(.*)\.as_slice\(\)$', src, re.S)
+            if not ms:
+                continue
+            recv = ms.group(1).strip()
+            if re.match(r'^[A-Za-z_][A-Za-z0-9_\.]*$', recv):
+                continue
+            hit = (off, par, comma, recv)
+            break
+        if not hit:
+            return text
+        off, par, comma, recv = hit
+        name = 'chunk_src__%d' % n
+        n += 1
+        text = text[:off] + 'let %s = %s;\n        ' % (name, recv) + text[off:par + 1] + '%s.as_slice()' % name + text[comma:]
+        notes.add('R19', 'source of vf_chunks bound to %s before its for loop' % name)
 
 
 def r19_bind_scan(text, notes):
@@ -981,6 +1030,7 @@ def apply_rules(text, rules, notes, extra_log_macros=()):
             text = r6_db_scans(text, notes)
         elif r == 'R19':
             text = r19_bind_scan(text, notes)
+            text = r19b_bind_chunk_source(text, notes)
         elif r == 'R22':
             text = r22_wildcard_closure_params(text, notes)
         else:
